@@ -109,6 +109,9 @@ func (g *Gen) pickMsg() msgChoice {
 		}
 		return msgChoice{"param-nonowner", chain.MsgChangeParam(rich.Addr, "pos/MaxValidators", int64(1)), one(rich), "ample"}
 	case 14:
+		if r.Chance(1, 3) { // DAO transfer/burn by somebody who is not the DAO owner: fee paid, handler refuses with the ROOT code sdk/4
+			return msgChoice{"dao-nonowner", chain.MsgDAO(rich.Addr, rich.Addr, int64(1+r.Intn(1000)), r.Chance(1, 2)), one(rich), "ample"}
+		}
 		return msgChoice{"dao", chain.MsgDAO(ro.Owner.Addr, rich.Addr, int64(1+r.Intn(1000)), r.Chance(1, 4)), one(ro.Owner), "ample"}
 	default: // sender without an account
 		k := ro.Fresh[r.Intn(len(ro.Fresh))]
@@ -283,6 +286,34 @@ func (g *Gen) Core() [][]Case {
 		blocks = append(blocks, ps)
 		blocks = append(blocks, g.SignerNotInMsg())
 	case "c16":
+		// one transaction of every outcome class, then the identical bytes again in the next block and
+		// in the block after: executed and indexed (code 0); rejected by the ante handler with an auth
+		// code (fee below required) and with a root code (stranger's signature, sdk/4); past the ante
+		// handler (fee paid) and refused by the message handler with a ROOT code below 10 (DAO transfer
+		// and DAO burn by a non-owner, sdk/4), with a module code (unjail of a node that is not jailed,
+		// parameter change by a non-owner) and with a root code >= 10 (transfer above the balance, sdk/10)
+		{
+			below := sdk.Coins{sdk.Coin{Denom: "upokt", Amount: sdk.NewInt(g.reqFor(chain.MsgSend(ro.Rich[0].Addr, ro.Rich[1].Addr, 1)) - 1)}}
+			oc := []Case{
+				mk("outcome-ok", chain.MsgSend(ro.Rich[0].Addr, ro.Rich[1].Addr, 31), Single{ro.Rich[0]}, eq, "equal"),
+				mk("outcome-ante-auth", chain.MsgSend(ro.Rich[0].Addr, ro.Rich[1].Addr, 32), Single{ro.Rich[0]}, below, "below"),
+				mk("outcome-ante-root", chain.MsgSend(ro.Rich[0].Addr, ro.Rich[1].Addr, 33), Single{ro.Rich[2]}, eq, "equal"),
+				mk("outcome-handler-root-lt10-dao-transfer", chain.MsgDAO(ro.Rich[0].Addr, ro.Rich[1].Addr, 5, false), Single{ro.Rich[0]}, eq, "equal"),
+				mk("outcome-handler-root-lt10-dao-burn", chain.MsgDAO(ro.Rich[1].Addr, ro.Rich[1].Addr, 5, true), Single{ro.Rich[1]}, eq, "equal"),
+				mk("outcome-handler-module-pos", chain.MsgNodeUnjail(ro.Node.Addr, ro.Node.Addr), Single{ro.Node}, eq, "equal"),
+				mk("outcome-handler-module-gov", chain.MsgChangeParam(ro.Rich[2].Addr, "pos/MaxValidators", int64(1)), Single{ro.Rich[2]}, eq, "equal"),
+				mk("outcome-handler-root-ge10", chain.MsgSend(ro.Rich[2].Addr, ro.Rich[1].Addr, 5000000000000), Single{ro.Rich[2]}, eq, "equal"),
+			}
+			again := func(tag string) []Case {
+				var out []Case
+				for _, c := range oc {
+					c.Kind = strings.Replace(c.Kind, "core-outcome", "core-resubmit-"+tag+"-outcome", 1)
+					out = append(out, c)
+				}
+				return out
+			}
+			blocks = append(blocks, oc, again("next"), again("later"))
+		}
 		// every re-encoding class of an executed transfer: in the same block, in the next block
 		for _, cl := range Reencodings() {
 			class := cl.Name
